@@ -300,7 +300,7 @@ func ruleIndexLoadOrder(c *eng.Ctx) {
 			}
 		}
 		ok := len(clears) == 1 && len(subs) == 1
-		c.Check(ok, rule, "prepareIncrementalLoad:shape", pf.Pos(), "loadedIDs.Sub(indexFiles) and mi.clear() found (%d/%d)", len(subs), len(clears))
+		c.Check(ok, rule, "prepareIncrementalLoad:vanished-index-is-a-set-difference", pf.Pos(), "whether a previously loaded index file disappeared is decided by the set difference loadedIDs.Sub(indexFiles) (found %d) guarding mi.clear() (found %d); comparing counts would miss an index file that was replaced by others", len(subs), len(clears))
 		if ok {
 			// with len(Sub(...)) > 0 every path to the success return passes clear(), and returns nil (= nothing loaded yet)
 			gone := eng.CmpEdges(pf, func(op token.Token, x, y ssa.Value) (bool, bool) {
